@@ -115,7 +115,7 @@ class DBusMessage :
                     hval = marshal.ObjectPath(hval)
                 elif attr_name == 'signature':
                     hval = marshal.Signature(hval)
-                elif attr_name == 'unix_fds':
+                elif attr_name in ('unix_fds', 'reply_serial'):
                     hval = marshal.UInt32(hval)
 
                 self.headers.append([code, hval])
